@@ -18,6 +18,10 @@ var vSnippets = []struct {
 	{`<blockquote><p>QuoteF</p></blockquote><script>var ScriptG = 1;</script><style>.StyleG{}</style>`, []string{"QuoteF"}},
 	{`<div><section><article><p>NestedH</p></article></section></div>`, []string{"NestedH"}},
 	{`<ol><li><p>StepI1</p></li><li>StepI2 &#8212; dash</li></ol>`, []string{"StepI1", "StepI2 — dash"}},
+	{`<ul><li>ItemJ1</li><p>MidJ</p><li>ItemJ2</li></ul>`, []string{"ItemJ1", "MidJ", "ItemJ2"}},
+	{`<ul><li>ItemK1</li><p class="nav">NavMidK</p><li>ItemK2</li></ul>`, []string{"ItemK1", "NavMidK", "ItemK2"}},
+	{`<ul><li>ItemL<table><tr><td>CellL</td></tr></table></li></ul>`, []string{"ItemL", "CellL"}},
+	{`<table><tr><th colspan="2">TitleM</th></tr><tr><td>LeftM</td><td>RightM</td></tr></table>`, []string{"TitleM", "LeftM", "RightM"}},
 }
 
 // H_C19_text_from_html: from HTML source text through the real parser to the extracted text: every piece of content
@@ -25,7 +29,7 @@ var vSnippets = []struct {
 // Markdown and the element list; stricter modes return subsequences.
 //
 //symgo:harness prop=C19 kernel=K4-text-from-html-source
-//symgo:desc HTML source = doctype + head (title, style) + body of 2 quick / 2..3 thorough fragments chosen from a catalogue of 8 (heading with entity; unclosed paragraph with inline elements and <br>; list with unclosed items and a nested list; table with thead/tbody/tfoot and row/column spans; pre/code with entities; blockquote followed by script and style; deeply nested section/article; ordered list with paragraph items and a numeric entity), distinct, in enumerated order; parsed by the real golang.org/x/net/html parser (interpreted): in mode None the element list, Text() and Markdown() each contain every marker of the chosen fragments exactly once and in document order, no script/style text and no markup; each stricter mode's marker sequence is a subsequence of the previous one
+//symgo:desc HTML source = doctype + head (title, style) + body of 2 quick / 2..3 thorough fragments chosen from a catalogue of 12 (a list with a paragraph interleaved between its items, the same with the paragraph in a navigation class, a table inside a list item, a table whose first row is a single spanning cell; heading with entity; unclosed paragraph with inline elements and <br>; list with unclosed items and a nested list; table with thead/tbody/tfoot and row/column spans; pre/code with entities; blockquote followed by script and style; deeply nested section/article; ordered list with paragraph items and a numeric entity), distinct, in enumerated order; parsed by the real golang.org/x/net/html parser (interpreted): in mode None the element list, Text(), Markdown() and the document model's text each contain every marker of the chosen fragments exactly once and in document order, no script/style text and no markup; each stricter mode's marker sequence is a subsequence of the previous one
 func H_C19_text_from_html() {
 	n := vAnyIntIn(2, 2+vTier())
 	var picked []int
@@ -51,12 +55,15 @@ func H_C19_text_from_html() {
 		vAssert(label+"-no-markup", !strings.Contains(txt, "<li") && !strings.Contains(txt, "<td") && !strings.Contains(txt, "&amp;") && !strings.Contains(txt, "&lt;"))
 	}
 	check("elements", vAllText(r.getElements(NavigationExclusionNone)))
-	txt, terr := r.Text()
+	txt, terr := r.TextWithOptions(ExtractOptions{NavigationExclusion: NavigationExclusionNone})
 	vAssert("text-no-error", terr == nil)
 	check("text", txt)
-	md, merr := r.Markdown()
+	md, merr := r.MarkdownWithOptions(ExtractOptions{NavigationExclusion: NavigationExclusionNone})
 	vAssert("markdown-no-error", merr == nil)
 	check("markdown", md)
+	doc, derr := r.DocumentWithOptions(ExtractOptions{NavigationExclusion: NavigationExclusionNone})
+	vAssert("document-no-error", derr == nil && doc != nil)
+	check("document", doc.ExtractText())
 	prev := markers
 	for mode := NavigationExclusionNone; mode <= NavigationExclusionAggressive; mode++ {
 		seq, ok := vMarkerSeq(vAllText(r.getElements(mode)), markers)
